@@ -422,6 +422,10 @@ func (ex *Exec) resolveModifies(env *Env, c *Contract) *ModSet {
 				s := pre.eval(m.Args[0])
 				elem := s.T.Underlying().(*types.Slice).Elem()
 				ms.Mem = append(ms.Mem, memRegion{elem, s.Arr(), s.Off(), Add(s.Off(), s.Cap())})
+			case "memtail": // unused tail capacity [len,cap) of slice s (pre-state)
+				s := pre.eval(m.Args[0])
+				elem := s.T.Underlying().(*types.Slice).Elem()
+				ms.Mem = append(ms.Mem, memRegion{elem, s.Arr(), Add(s.Off(), s.Len()), Add(s.Off(), s.Cap())})
 			case "mapof":
 				mv := pre.eval(m.Args[0])
 				k := typeKey(mv.T)
